@@ -143,6 +143,19 @@ pub fn clock_now() -> Option<u64> {
     }
 }
 
+static HELD_POINTS: std::sync::atomic::AtomicBool = std::sync::atomic::AtomicBool::new(false);
+/// Whether a thread may be descheduled right after it has acquired a lock, i.e. *while holding it* with no further
+/// acquisition pending. Lock-acquisition points alone never show a lock as held to code that only *tries* a lock
+/// (`try_read`, `try_lock`): with this on, they do.
+pub fn set_held_points(on: bool) {
+    HELD_POINTS.store(on, Ordering::SeqCst);
+}
+pub fn held_point() {
+    if HELD_POINTS.load(Ordering::Relaxed) && controlled_live() {
+        point(Op::Yield("holding"));
+    }
+}
+
 /// Whether the statistics atomics (hook H1) are scheduling points.
 pub fn set_atomic_points(on: bool) {
     ATOMIC_POINTS.store(on, Ordering::SeqCst);
